@@ -15,7 +15,13 @@ Every float matrix handed to toqito has an exact dyadic image X (cert.DM.exact_f
     the quantities of the NECESSARY criteria of the cascade are evaluated for every separable-by-construction instance, confirming numerically what
     the Lean theorems state for all dimensions (realignment_criterion_svd, zhang_criterion_svd, positive_map_criterion, reduction_criterion,
     breuer_hall_criterion): a separable input decided at one of those branches contradicts a theorem, i.e. the CODE evaluates the criterion wrongly.
-The deciding return statement of is_separable / has_symmetric_extension is observed with sys.monitoring (no source hooks)."""
+The deciding return statement of is_separable / has_symmetric_extension is observed with sys.monitoring (no source hooks) and compared, call by call, with the
+Lean model of the decision logic (lean/Toq/Model/SepCascade.lean: sepCascade / isSeparableModel, hasSymExtModel, isPptOperand / isPptDecide): the quantities the
+cascade evaluates (trace norms, purities, sorted spectrum, numerical ranks, block quantities of the 2xn tests, |F| of the rank-4 test, ball / Schmidt-rank /
+qutrit-map outcomes) are obtained with the same NumPy / toqito calls on the same array and handed to the compiled model as exact rationals; the model answers with
+the statement that returns, the verdict, and the two sides of every rational comparison made on the way (agreement is demanded when none of them is closer to
+equality than 1e-13 relative).  The exchange of the parties that puts the qubit first, the slices A, B, C and the block matrix of the homothetic-image test are
+compared with the exact Lean blk / qubitFirst / homothetic on every 2xn call."""
 from __future__ import annotations
 
 import hashlib
@@ -40,6 +46,12 @@ RULE = ("states on dA (x) dB, dA,dB in 2..4 (unequal allowed), from the seeded g
         "non-trivial: is_ppt/is_npt - certified interval clear of -tol by 1e-9 and the state is not maximally mixed; is_separable - the oracle applies "
         "(separable by construction with >= 1 term, or certified lambda_min <= -1e-6, or dA*dB <= 6 with a decided PPT verdict, or an invariance pair whose members "
         "did not both raise); in_separable_ball - relative margin >= 1e-9 from the boundary; has_symmetric_extension - separable by construction or NPT by margin. "
+        "cascade streams (decision logic against the Lean model, every is_separable / has_symmetric_extension / is_ppt call of the streams above plus): separable 2xn / nx2 block "
+        "mixtures aimed at the homothetic-image and Lemma-1 statements ((1-eps) diagonal product state + eps random complex product states), diagonal states on 2x4 / 4x2 whose "
+        "spectrum satisfies Johnston's condition but none of its off-by-one index variants (and conversely), instances 5e-9 beyond the spectrum, rank-one-perturbation and Lemma-1 "
+        "conditions (decided by tol**2, not tol), PPT entangled states decided by the Zhang test, by the rank-4 determinant test (two sizes of |F|) and by the Ha-Kye qutrit maps "
+        "(locally filtered Horodecki / tiles states); non-trivial = no comparison of the cascade within 1e-13 (relative) of equality. Explicit symmetric extensions (levels 2, 3) of exact "
+        "product mixtures are checked against the constraint expressions of the hierarchy. "
         "distinct = sha1 of (function, call form, matrix bytes). "
         "presentation: every call of is_ppt / is_npt / is_separable / in_separable_ball / has_symmetric_extension / partial_transpose / swap receives the same values in a "
         "freshly drawn presentation (C / Fortran / strided memory layout; real-valued matrices as float64, integer-valued ones also as int64); the array handed over "
@@ -62,6 +74,15 @@ ASSUMPTIONS = [
     "local dimensions (peres, realignment_criterion[_svd], zhang_criterion[_svd], positive_map_criterion, reduction_criterion, breuer_hall_criterion); the trace norm is used in its dual form "
     "(sup over contractions) and as the sum of the singular values of ANY singular value decomposition; two facts stay cited: positivity of the Ha-Kye qutrit maps Phi[a,b,c] "
     "(Cho-Kye-Lee; a hypothesis of ha_maps_branch, probed numerically on random pure states in every run) and the Chen-Djokovic determinant criterion for rank-4 states on 3x3",
+    "decision-logic streams: the quantities handed to the Lean cascade are produced by the same NumPy / toqito calls, on the same array object, that is_separable makes (identical inputs give "
+    "identical floats; single-threaded BLAS); the model compares their exact rational values, the code compares in float, so agreement of the deciding statement is demanded only when every "
+    "comparison made before the return has |lhs - rhs| > 1e-13 (|lhs| + |rhs|), and a mismatch must reproduce on a second identical call; |F| of the rank-4 test is obtained by executing the "
+    "lines of is_separable that build it (the table of minors is toqito's; the model covers the decision abs(F) < max(tol**2, eps**(3/4)) only)",
+    "the statements after the Ha-Kye maps (Breuer-Hall block, symmetric-extension search) are one outcome `late` of the model: the known finding c15-is-separable-late-stage; at the SDP statement of "
+    "has_symmetric_extension the model is given the value 1 (the optimum of the single-state discrimination program the code evaluates: known finding c15-symext-sdp-constant-false)",
+    "soundness of the sufficient criteria stays cited (Horodecki dA*dB <= 6, Johnston spectrum / Lemma 1, Hildebrand Hankel / homothetic images, Gurvits-Barnum, Vidal-Tarrach, Cariello, "
+    "Chen-Djokovic rank 4, Chen et al. two-qubit symmetric extension); what is proved is that the code's arithmetic IS the cited condition (johnston_spectrum_indices, zhang_test_arithmetic, "
+    "homothetic_image_spec, qubit_blocks_spec, lemma1_frobenius_dominates, ha_parameters_in_region, symext_analytic_arithmetic) and the decision logic around it",
     "criteria quantities are evaluated in float on rho/trace(rho) (the normalisation is_separable performs) from the exact Lean realignment / marginals; an inequality proved in Lean must hold "
     "with slack 1e-12 (else the harness itself is wrong: infrastructure error), and toqito's own evaluation of the same quantity must agree within 1e-12 (else violation)",
 ]
@@ -453,6 +474,111 @@ def gen_state(rng, fam, dA, dB):
     return {"family": fam, "dA": dA, "dB": dB, "rho": rho, "sep": None, "terms": None, "cplx": cplx, "meta": meta}
 
 
+def gen_2xn_block(rng, n, qubit_first, kind, eps=Fraction(1, 64), k=4):
+    """separable by construction, aimed at the later 2xn statements: (1-eps) * (diagonal product state |i><i| (x) |j><j| with weights wq[i]*wn[j]) + eps * (k random
+    complex product states).  kind 'lemma1': wq = (1, 6), flat wn (5/6 A - C/6 is not PSD, ||B||_F^2 <= lmin(A) lmin(C));  kind 'homothetic': wq = (1, 1),
+    wn = (6, 2, 1, ..., 1) (spectrum condition fails, the homothetic image is PSD and PPT); 'homothetic-tight': wq = (1, 4) (5/6 A - C/6 = A/6: PSD only with the
+    coefficients 5/6 and 1/6 of the code).  B - B^H has rank >= 2 for complex terms (k >= 2)."""
+    wq, wn = {"lemma1": ((1, 6), [1] * n), "homothetic": ((1, 1), [6, 2] + [1] * (n - 2)), "homothetic-tight": ((1, 4), [6, 2] + [1] * (n - 2))}[kind]
+    terms = []
+    for i in range(2):
+        for j in range(n):
+            eq = np.zeros(2, dtype=complex)
+            eq[i] = 1
+            en = np.zeros(n, dtype=complex)
+            en[j] = 1
+            terms.append(((1 - eps) * Fraction(wq[i], sum(wq)) * Fraction(wn[j], sum(wn)), eq, en))
+    for _ in range(k):
+        a = qgen.int_vector(rng, 2, True, 3)
+        b = qgen.int_vector(rng, n, True, 3)
+        na = int(round(float(np.vdot(a, a).real)))
+        nb = int(round(float(np.vdot(b, b).real)))
+        terms.append((eps / k / (na * nb), a, b))
+    if not qubit_first:
+        terms = [(w, b, a) for (w, a, b) in terms]
+    rho = herm(sum(float(t[0]) * np.kron(np.outer(t[1], t[1].conj()), np.outer(t[2], t[2].conj())) for t in terms))
+    dA, dB = (2, n) if qubit_first else (n, 2)
+    return {"family": "sepmix", "dA": dA, "dB": dB, "rho": rho, "sep": True, "terms": terms, "k": len(terms), "cplx": True, "mix_id": None, "scale": 1.0,
+            "meta": {"aim": "2xn-" + kind}}
+
+
+def corpus_cascade():
+    """PPT entangled states (cited; no separability oracle is attached) that are decided by the Zhang test, by the rank-4 determinant test and by the qutrit maps
+    of Ha and Kye: the statements of the cascade that the other families do not reach.  Only the decision logic is compared with the Lean model."""
+    from toqito.states import horodecki, tile
+    out = []
+    H = np.real(horodecki(0.236, [3, 3]))
+    out.append(("zhang", herm(0.9945 * H + 0.0055 * np.eye(9) / 9)))
+    T = np.identity(9)
+    for i in range(5):
+        T = T - tile(i) @ tile(i).conj().T
+    # local filters of the tiles state (PPT entangled, rank 4): |F| = 1.3e-8 and 7.8e-11, both above the floor eps**(3/4) = 1.8e-12 of the determinant test
+    for nm, fa, fb in (("rank4-filtered-tiles", [1.0, 3.0, 9.0], [1.0, 2.0, 4.0]), ("rank4-filtered-tiles-small-F", [1.0, 4.0, 16.0], [1.0, 3.0, 9.0])):
+        K = np.kron(np.diag(fa), np.diag(fb))
+        F = K @ (T / 4) @ K.T
+        out.append((nm, herm(F / np.trace(F))))
+    psi = np.zeros(9)
+    psi[[0, 4, 8]] = 1 / np.sqrt(3)
+    P = np.outer(psi, psi)
+
+    def e(i, j):
+        v = np.zeros(9)
+        v[3 * i + j] = 1
+        return np.outer(v, v)
+    sp = (e(0, 1) + e(1, 2) + e(2, 0)) / 3
+    sm = (e(1, 0) + e(2, 1) + e(0, 2)) / 3
+    for al, flt in ((3.5, [1.0, 3.0, 3.0]), (4.0, [1.0, 4.0, 8.0])):
+        r = 2 / 7 * P + al / 7 * sp + (5 - al) / 7 * sm
+        K = np.kron(np.diag(flt), np.eye(3))
+        r2 = K @ r @ K.T
+        out.append((f"ha-filtered-alpha{al}", herm(r2 / np.trace(r2))))
+    return [{"family": "cascade-corpus", "dA": 3, "dB": 3, "rho": np.real(m).astype(float), "sep": None, "terms": None, "cplx": False, "meta": {"name": nm}} for nm, m in out]
+
+
+def _diag_inst(dA, dB, weights, aim):
+    """classical state sum_ij w_ij |i><i| (x) |j><j| (separable by construction), weights = exact rationals in flat order i*dB + j"""
+    terms = []
+    for idx, w in enumerate(weights):
+        ea = np.zeros(dA, dtype=complex)
+        ea[idx // dB] = 1
+        eb = np.zeros(dB, dtype=complex)
+        eb[idx % dB] = 1
+        terms.append((Fraction(w), ea, eb))
+    rho = np.diag([float(t[0]) for t in terms])
+    return {"family": "sepmix", "dA": dA, "dB": dB, "rho": rho, "sep": True, "terms": terms, "k": len(terms), "cplx": False, "mix_id": None, "scale": 1.0,
+            "meta": {"aim": aim}}
+
+
+def corpus_thresholds():
+    """instances placed so that the index choices and the tolerance terms of the later statements matter:
+    * spectra on 2x4 / 4x2 that satisfy Johnston's condition (l1 - l7)^2 <= 4 l6 l8 but none of its off-by-one variants, and one that violates it but satisfies
+      the variant with l7 in place of l8;
+    * a spectrum 5e-9 outside Johnston's condition (decided with tol**2, not tol), a 3x4 state whose second largest and smallest eigenvalue differ by 5e-9
+      (rank-one-perturbation statement: tol**2), a 2x4 block state with ||B||_F^2 = lmin(A) lmin(C) + 5e-9 (Lemma-1 statement: tol**2)."""
+    F = Fraction
+    out = []
+    spec_in = [F(1, 5), F(7, 50), F(7, 50), F(7, 50), F(7, 50), F(3, 25), F(2, 25), F(1, 25)]          # J holds; (l1-l8)^2 and 4 l7 l8 variants fail
+    spec_out = [F(1, 4), F(51, 400), F(51, 400), F(51, 400), F(51, 400), F(3, 25), F(2, 25), F(1, 25)]  # J fails; 4 l6 l7 variant holds
+    spec_tol = [F(3, 10) + F(125, 10**10)] + [F(1, 10)] * 7                                            # 5e-9 outside J
+    perm = [5, 0, 7, 2, 4, 1, 6, 3]   # the eigenvalues are not stored in sorted order
+    for nm, lam in (("spectrum-indices-in", spec_in), ("spectrum-indices-out", spec_out), ("spectrum-tol", spec_tol)):
+        for dA, dB in ((2, 4), (4, 2)):
+            out.append(_diag_inst(dA, dB, [lam[i] for i in perm], nm))
+    w = [F(1, 24)] * 12
+    w[0] = F(1, 2) + F(1, 24)
+    w[5] = F(1, 24) + F(5, 10**9)
+    out.append(_diag_inst(3, 4, w, "rank1-tol"))
+    # Lemma 1 by 5e-9: [[a 1, B], [B^H, c 1]] on 2x4 (and with the parties exchanged), a = 1/40, c = 9/40, B = beta * G with rank(G - G^H) >= 2
+    G = np.array([[0, 1, 0, 0], [0, 0, 1j, 0], [0, 0, 0, 0], [0, 0, 0, 0]], dtype=complex)
+    a, c = 1 / 40, 9 / 40
+    beta = np.sqrt((a * c + 5e-9) / 2)
+    X = np.block([[a * np.eye(4), beta * G], [beta * G.conj().T, c * np.eye(4)]])
+    for dA, dB in ((2, 4), (4, 2)):
+        M = X if dA == 2 else X.reshape(2, 4, 2, 4).transpose(1, 0, 3, 2).reshape(8, 8)
+        out.append({"family": "cascade-corpus", "dA": dA, "dB": dB, "rho": herm(M), "sep": None, "terms": None, "cplx": True, "meta": {"name": "lemma1-tol"}})
+    return out
+
+
 def pick_dims(rng, square=False, pool=None):
     pool = pool or DIMS_ALL
     if square:
@@ -512,6 +638,24 @@ def dim_arg(form, dA, dB):
     return {"list": [dA, dB], "ndarray": np.array([dA, dB]), "none": None, "float": float(dA), "int": int(dA), "list1": [dA]}[form]
 
 
+def ppt_dim_json(form, dA, dB):
+    return {"list": [dA, dB], "ndarray": [dA, dB], "none": None, "float": int(dA), "int": int(dA), "list1": [dA]}[form]
+
+
+def ppt_operand_check(drv, dA, dB, sys_, form):
+    """the operand of is_ppt for this form of `dim` according to the Lean model (isPptOperand on the array labelled i*N + j) is the partial
+    transpose of party sys_ for the dimensions [dA, dB] (is_ppt_operand_forms)"""
+    N = dA * dB
+    ans = drv.ask("c15_ppt_operand", {"N": N, "sys": int(sys_), "dim": ppt_dim_json(form, dA, dB)})
+    if "reject" in ans:
+        raise InfraError(f"c15_ppt_operand rejects the accepted form {form} on {dA}x{dB}: {ans}")
+    lab = np.arange(N * N).reshape(N, N)
+    mine = pt_float(lab, dA, dB, sys_)
+    if ans["rows"] != N or ans["cols"] != N or [int(x) for x in ans["src"]] != [int(x) for x in mine.reshape(-1)]:
+        raise InfraError(f"the Lean operand of is_ppt (form {form}, sys {sys_}, {dA}x{dB}) is not the partial transpose the certificates are computed for")
+    return True
+
+
 def work_ppt(task, res: Result):
     """is_ppt / is_npt against the certified interval of the exact partial transpose"""
     from toqito.state_props import is_npt, is_ppt
@@ -535,6 +679,27 @@ def work_ppt(task, res: Result):
             expected = True
         elif hi is not None and float(hi) <= -float(tolq) - MARGIN:
             expected = False
+        if drv is not None:
+            # the argument forms and the decision of is_ppt / is_npt according to the Lean model (isPptOperand, isPptDecide, isNptDecide)
+            okey = (sys_, form)
+            if okey not in cache:
+                cache[okey] = ppt_operand_check(drv, dA, dB, sys_, form)
+                res.count("ppt-operand-model-checked")
+            tolj = None if tol is None else frac_json(Fraction(float(tol)))
+            m_exp = None
+            if lo is not None:
+                a1 = drv.ask("c15_ppt_decide", {"herm": True, "lam": frac_json(lo - Fraction(MARGIN)), "tol": tolj})
+                if a1["is_ppt"] is True:
+                    m_exp = True
+                if a1["is_npt"] != (not a1["is_ppt"]) or rat_of(a1["tol"]) != tolq:
+                    raise InfraError(f"c15_ppt_decide inconsistent: {a1}, harness tolerance {tolq}")
+            if m_exp is None and hi is not None:
+                a2 = drv.ask("c15_ppt_decide", {"herm": True, "lam": frac_json(hi + Fraction(MARGIN)), "tol": tolj})
+                if a2["is_ppt"] is False:
+                    m_exp = False
+            if m_exp != expected:
+                raise InfraError(f"the Lean decision of is_ppt ({m_exp}) differs from the harness threshold logic ({expected}) at lo={lo}, hi={hi}, tol={tol}")
+            res.count("ppt-decision-model-checked")
         at8 = None  # what a hard-wired threshold -1e-8 would answer
         if lo is not None and float(lo) >= -1e-8 + 1e-10:
             at8 = True
@@ -633,6 +798,201 @@ def early_criteria(rho, dA, dB):
     return out
 
 
+# ------------------------------------------------------------------------------------------------
+# the decision logic of is_separable / has_symmetric_extension / is_ppt against the Lean model (Toq/Model/SepCascade.lean)
+
+LATE_LABELS = ("breuer-hall", "symext-true", "symext-final-false")
+REL_MARGIN = 1e-13   # a comparison lhs ? rhs evaluated in float is resolved when |lhs - rhs| > REL_MARGIN * (|lhs| + |rhs|)
+_F_SRC = {}
+
+
+def _rank4_F(state):
+    """abs(F) of the rank-4 test on 3x3, computed by EXECUTING the lines of is_separable that build it (from `p = np.zeros((6, 7, 8, 9))` to the
+    end of the `F = np.linalg.det(...)` statement): the table of Pluecker coordinates is toqito's own; the Lean model covers the decision
+    `abs(F) < max(tol**2, eps**(3/4))` only (the criterion itself is cited).  None when the lines cannot be located."""
+    from itertools import product
+    from scipy.linalg import orth
+    f, w = watched("is_separable")
+    key = id(f)
+    if key not in _F_SRC:
+        src = w.src
+        try:
+            i0 = next(i for i, t in enumerate(src) if "p = np.zeros((6, 7, 8, 9))" in t)
+            i1 = next(i for i, t in enumerate(src) if i > i0 and "Matrix is separable iff F is zero" in t)
+            import textwrap
+            _F_SRC[key] = compile(textwrap.dedent("".join(src[i0:i1])), "<is_separable rank-4 block>", "exec")
+        except StopIteration:
+            _F_SRC[key] = None
+    code = _F_SRC[key]
+    if code is None:
+        return None
+    ns = {"np": np, "orth": orth, "product": product, "state": state}
+    exec(code, ns)
+    return abs(ns["F"])
+
+
+def cascade_quantities(arr, dA, dB, tol=1e-8):
+    """the quantities is_separable evaluates, obtained with the same NumPy / toqito calls on the same array, in the order of the source
+    (all of them, whether or not the real call gets that far); -> (dict of exact values, dict name -> exception text)"""
+    from toqito.channel_ops.partial_channel import partial_channel
+    from toqito.channels import partial_trace, realignment
+    from toqito.matrix_props import is_positive_semidefinite, trace_norm
+    from toqito.perms import swap
+    from toqito.state_props import in_separable_ball, is_ppt, schmidt_rank
+    q = {"psd": False, "rank": 0, "ppt": False, "realignNorm": 0.0, "zhangNorm": 0.0, "purA": 0.0, "purB": 0.0, "lam": [], "hankelRank": 0, "homPsd": False,
+         "homPpt": False, "normB2": 0.0, "minA": 0.0, "minC": 0.0, "absF": 0.0, "ball": False, "osr": 0, "haPsd": []}
+    err = {}
+
+    def grab(name, fn):
+        try:
+            q[name] = fn()
+        except Exception as e:
+            err[name] = f"{type(e).__name__}: {str(e)[:120]}"
+
+    state = arr
+    grab("psd", lambda: bool(is_positive_semidefinite(state)))
+    if not q["psd"]:
+        return q, err
+    grab("rank", lambda: int(np.linalg.matrix_rank(state)))
+    state = state / np.trace(state)
+    dim = [int(dA), int(dB)]
+    min_dim, max_dim, prod_dim = min(dim), max(dim), dA * dB
+    if min_dim == 1:
+        return q, err
+    pa = partial_trace(state, [1], dim)
+    pb = partial_trace(state, [0], dim)
+    grab("ppt", lambda: bool(is_ppt(state, 2, dim, tol)))
+    grab("realignNorm", lambda: float(trace_norm(realignment(state, dim))))
+    grab("zhangNorm", lambda: float(trace_norm(realignment(state - np.kron(pa, pb), dim))))
+    grab("purA", lambda: float(np.real(np.trace(pa @ pa))))
+    grab("purB", lambda: float(np.real(np.trace(pb @ pb))))
+
+    def lam_():
+        eig_vals, _ = np.linalg.eig(state)
+        return [float(np.real(x)) for x in eig_vals[np.argsort(-eig_vals)]]
+    grab("lam", lam_)
+    if min_dim == 2:
+        state_t = swap(state, [1, 2], dim) if dim[0] > 2 else state
+        A = state_t[:max_dim, :max_dim]
+        B = state_t[:max_dim, max_dim: 2 * max_dim]
+        C = state_t[max_dim: 2 * max_dim, max_dim: 2 * max_dim]
+        grab("hankelRank", lambda: int(np.linalg.matrix_rank(B - B.conj().T)))
+        X2 = np.vstack((np.hstack(((5 / 6) * A - C / 6, B)), np.hstack((B.conj().T, (5 / 6) * C - A / 6))))
+        grab("homPsd", lambda: bool(is_positive_semidefinite(X2)))
+        grab("homPpt", lambda: bool(is_ppt(X2, 2, [2, max_dim])))
+        grab("normB2", lambda: float(np.linalg.norm(B) ** 2))
+        grab("minA", lambda: float(np.min(np.real(np.linalg.eigvals(A)))))
+        grab("minC", lambda: float(np.min(np.real(np.linalg.eigvals(C)))))
+        q["_blocks"] = (np.array(state_t), np.array(A), np.array(B), np.array(C), np.array(X2))
+    if q["rank"] == 4 and min_dim == 3 and max_dim == 3:
+        def f_():
+            v = _rank4_F(state)
+            if v is None:
+                raise InfraError("rank-4 block of is_separable not located")
+            return float(v)
+        grab("absF", f_)
+    grab("ball", lambda: bool(in_separable_ball(state)))
+    grab("osr", lambda: int(schmidt_rank(state, dim)))
+    if dim[0] == 3 and dim[1] == 3:
+        grab("haPsd", lambda: [bool(is_positive_semidefinite(partial_channel(state, Phi, 2, dim))) for _, Phi in ha_choi_matrices()])
+    return q, err
+
+
+def _qjson(q):
+    out = {}
+    for k, v in q.items():
+        if k.startswith("_"):
+            continue
+        if isinstance(v, bool) or (isinstance(v, int) and k in ("rank", "hankelRank", "osr")):
+            out[k] = v
+        elif isinstance(v, list):
+            out[k] = [x if isinstance(x, bool) else frac_json(Fraction(float(x))) for x in v]
+        else:
+            out[k] = frac_json(Fraction(float(v)))
+    return out
+
+
+def model_cascade(drv, N, form, dA, tol, q):
+    """-> (label, verdict, near_threshold, raw answer): the statement of is_separable that returns according to the Lean model"""
+    dimj = {"list": None, "none": None, "int": int(dA)}[form]
+    args = {"N": int(N), "dim": dimj, "tol": frac_json(Fraction(float(tol))), "q": _qjson(q)}
+    if form == "list":
+        args["dim"] = [int(dA), int(N // dA)]
+    ans = drv.ask("c15_cascade", args)
+    if "reject" in ans:
+        lab = {"NotPSD": "input-not-psd", "InvalidDim": "invalid-dim"}.get(ans["reject"], "reject:" + str(ans["reject"]))
+        return lab, "raise:ValueError", False, ans
+    near = False
+    for lhs, rhs in ans["cmps"]:
+        a, b = Fraction(int(lhs[0]), int(lhs[1])), Fraction(int(rhs[0]), int(rhs[1]))
+        if abs(a - b) <= Fraction(REL_MARGIN) * (abs(a) + abs(b)):
+            near = True
+    if ans["out"] == "late":
+        return "late", None, near, ans
+    return ans["branch"], bool(ans["verdict"]), near, ans
+
+
+def check_blocks(res, drv, blocks, dA, dB):
+    """the exchange of the parties that puts the qubit first, the slices A, B, C and the block matrix of the homothetic-image test, as the harness replica
+    computes them with toqito.perms.swap / NumPy, against the exact Lean blk / qubitFirst / homothetic (qubit_blocks_spec, homothetic_image_spec)"""
+    state_t, A, B, C, X2 = blocks
+    n = max(dA, dB)
+    # the exact image of the normalised float state, in the ORIGINAL party order: undo the exchange the replica made
+    st = np.asarray(state_t, dtype=complex)
+    orig = st if dA == 2 else st.reshape(2, n, 2, n).transpose(1, 0, 3, 2).reshape(2 * n, 2 * n)
+    X = DM.exact_float(np.ascontiguousarray(orig))
+    ans = drv.ask("c15_blocks2n", {"dA": dA, "dB": dB, "X": X.json()})
+    if "reject" in ans:
+        raise InfraError(f"c15_blocks2n rejected {dA}x{dB}: {ans}")
+    ok = int(ans["n"]) == n and all(_exact_equal(M, ans[k]) for k, M in (("A", A), ("B", B), ("C", C)))
+    H = _lean_mat(ans["H"], 2 * n, 2 * n)
+    okh = float(np.max(np.abs(H - np.asarray(X2, dtype=complex)))) <= 8e-16 * max(1.0, float(np.max(np.abs(st))))
+    res.count("blocks2n-exact-checked")
+    if not (ok and okh):
+        raise InfraError(f"the replica of the 2xn blocks ({dA}x{dB}) differs from the exact Lean blocks (A,B,C exact: {ok}; homothetic image: {okh})")
+
+
+def check_cascade(res, drv, arr, inst, form, dA, dB, out, branch, exc, tag="base"):
+    """compares the deciding statement and the verdict of the real call with the Lean model of the cascade, fed with the quantities that toqito's own
+    functions give on the same array"""
+    if drv is None or branch in ("not-entered",) or branch.startswith(("unrecognised:", "other:")):
+        return
+    q, err = cascade_quantities(arr, dA, dB)
+    N = int(np.asarray(arr).shape[1])
+    lab, verdict, near, ans = model_cascade(drv, N, form, dA, 1e-8, q)
+    if "reject" not in ans and list(ans.get("dims", [])) != [dA, dB]:
+        raise InfraError(f"the model decodes dim form {form!r} on side {N} as {ans.get('dims')}, the instance was generated on {[dA, dB]}")
+    res.count(f"cascade-model/{lab}/{verdict}")
+    if "_blocks" in q and not err:
+        check_blocks(res, drv, q["_blocks"], dA, dB)
+    agree = (lab == "late" and branch in LATE_LABELS) or (lab == branch and verdict == out)
+    # a quantity whose evaluation raised is only relevant when the real call raised too (then the real call shows the same exception)
+    if err and not agree:
+        res.count("cascade-model/replica-raised")
+        return
+    desc = {"fn": "is_separable/cascade", "tag": tag, "dim_form": form, "dA": dA, "dB": dB, "rho": digest(inst["rho"])}
+    res.case(desc, not near, f"cascade/{lab}" + ("/near-threshold" if near else ""))
+    if agree:
+        return
+    if near:
+        res.count("cascade-model/near-threshold-mismatch")
+        return
+    if tag != "recheck":
+        # identical calls on identical data: a mismatch that does not reproduce is numerical flutter, not a statement about the decision logic
+        out_b, branch_b, exc_b = observed_call("is_separable", arr, sep_dim_arg(form, dA, dB))
+        if (out_b, branch_b) != (out, branch):
+            res.count("cascade-model/unstable-call")
+            return
+    qv = {k: v for k, v in q.items() if not k.startswith("_")}
+    res.violation(f"is_separable returned {out} at statement {branch}; the Lean model of the cascade, fed with the quantities toqito's own functions give on the same array, "
+                  f"returns {verdict} at {lab} ({dA}x{dB}, dim form {form})",
+                  {"function": "is_separable", "check": "cascade", "args": {"dA": dA, "dB": dB, "dim_form": form, "family": inst.get("family"), "k": inst.get("k"), "meta": inst.get("meta"),
+                                                                             "variant": inst.get("variant", "base"), "rho": inst["rho"], "pres": inst.get("pres")},
+                   "impl": [out, branch], "model": [verdict, lab], "quantities": qv, "exception": exc, "branch": branch, "dA": dA, "dB": dB,
+                   "separable_by_construction": bool(inst.get("sep")),
+                   "theorem": "sepCascade (cascade_small_dims_is_ppt, cascade_npt_rejected, cascade_false_only_by_necessary_criteria, johnston_spectrum_indices, zhang_test_arithmetic)"})
+
+
 def _sep_violation(res, what, inst, form, out, branch, exc, extra=None):
     info = {"function": "is_separable", "args": {"dA": inst["dA"], "dB": inst["dB"], "dim_form": form, "family": inst["family"], "k": inst.get("k"), "meta": inst.get("meta"),
                                                   "variant": inst.get("variant", "base"), "rho": inst["rho"], "pres": inst.get("pres")},
@@ -705,6 +1065,7 @@ def work_sep(task, res: Result):
                               {"function": "is_separable", "args": pargs, "impl": [out, out_b], "presentation": describe(arr), "check": "repeat"})
         verdicts[form] = (out, branch)
         res.count(f"is_separable-branch/{branch}/{out}")
+        check_cascade(res, drv, arr, inst, form, dA, dB, out, branch, exc)
         desc = {"fn": "is_separable", "dim_form": form, "dA": dA, "dB": dB, "family": fam, "k": inst.get("k"), "rho": digest(rho)}
         oracle = bool(inst.get("sep")) or npt or D <= 6
         res.case(desc, oracle, f"is_separable/{fam}/{dA}x{dB}")
@@ -759,6 +1120,7 @@ def work_sep(task, res: Result):
             out2, branch2, exc2 = observed_call("is_separable", arr, [a_, b_])
             _purity(res, "is_separable", guard, arr, {"dA": a_, "dB": b_, "dim_form": "list", "family": fam, "variant": vname, "rho": mat, "pres": task.get("pres")})
             res.count(f"is_separable-branch/{branch2}/{out2}")
+            check_cascade(res, drv, arr, inst2, "list", a_, b_, out2, branch2, exc2, tag=vname)
             both_raise = isinstance(out2, str) and isinstance(base_out, str)
             res.case({"fn": "is_separable/" + vname, "dA": dA, "dB": dB, "family": fam, "rho": digest(rho)}, not both_raise, f"invariance/{vname}/" + ("both-raise" if both_raise else "compared"))
             _ppt_first(res, inst2, "list", out2, branch2, exc2, npt8, ppt8, cinfo)
@@ -999,6 +1361,13 @@ def work_ha_probe(task, res: Result):
     mats = ha_choi_matrices()
     if len(mats) != 19:
         raise InfraError("expected 19 Ha-Kye Choi matrices")
+    drv = _drv(task)
+    if drv is not None:
+        # the parameter loop of the model (haTs, haABC; ha_parameters_in_region) against the float loop of the code as replicated by ha_choi_matrices
+        ans = drv.ask("c15_ha_params", {})
+        if len(ans) != 19 or any(max(abs(float(rat_of(r[1 + i])) - abc[i]) for i in range(3)) > 1e-12 for r, (abc, _) in zip(ans, mats)):
+            raise InfraError("the parameters (a, b, c) of the Lean model of the qutrit-map loop differ from the replica of the code's loop")
+        res.count("criteria/ha-params-model-checked")
     for (a, b, c), Phi in mats:
         if abs(a + b + c - 2) > 1e-12 or abs(b * c - (1 - a) ** 2) > 1e-12 or not (-1e-15 <= a <= 1 + 1e-15):
             res.violation(f"is_separable's qutrit map parameters ({a}, {b}, {c}) leave the Cho-Kye-Lee positivity region", {"function": "ha_probe", "args": {"abc": [a, b, c], "vecs": vecs}, "impl": [a, b, c], "model": "a+b+c>=2, bc>=(1-a)^2", "theorem": "ha_maps_branch (cited hypothesis)"})
@@ -1069,6 +1438,53 @@ def work_ball(task, res: Result):
                       {"function": "in_separable_ball", "args": {"form": form, "n": n, "ndim": int(np.asarray(M).ndim), "M": M, "pres": task.get("pres")}, "presentation": describe(arr), "impl": impl, "model": model, "exception": exc, "margin": rel, "theorem": "ball_exact"})
 
 
+def check_symext_model(res, drv, arr, inst, level, form, ppt, out, branch, exc, tol=1e-4):
+    """the deciding statement and verdict of has_symmetric_extension against the Lean model (hasSymExtModel), fed with the quantities toqito's own
+    functions give; at the SDP statement the value handed to the model is 1, the optimum of the program the code evaluates (known finding)"""
+    if drv is None or branch.startswith(("other:", "unrecognised:")) or branch in ("not-entered", "invalid-dim"):
+        return
+    from toqito.channels import partial_trace
+    from toqito.matrix_props import is_positive_semidefinite
+    from toqito.state_props import is_ppt
+    dA, dB = inst["dA"], inst["dB"]
+    N = dA * dB
+    q = {"psd": False, "ppt": False, "purB": 0.0, "purRho": 0.0, "detRho": 0.0, "sdpVal": 1.0}
+    try:
+        q["psd"] = bool(is_positive_semidefinite(arr))
+        q["ppt"] = bool(is_ppt(arr, 2, np.int_([dA, dB])))
+        if (dA, dB) == (2, 2):
+            q["purB"] = float(np.real(np.trace(np.linalg.matrix_power(partial_trace(arr, [0]), 2))))
+            q["purRho"] = float(np.real(np.trace(np.linalg.matrix_power(arr, 2))))
+            q["detRho"] = float(np.real(np.linalg.det(arr)))
+    except Exception:
+        res.count("symext-model/replica-raised")
+        return
+    dimj = {"none": None, "int": int(dA), "list": [dA, dB], "ndarray": [dA, dB]}[form]
+    ans = drv.ask("c15_symext_decide", {"N": N, "level": int(level), "dim": dimj, "ppt": bool(ppt), "tol": frac_json(Fraction(tol)),
+                                        "q": {k: (v if isinstance(v, bool) else frac_json(Fraction(float(v)))) for k, v in q.items()}})
+    if "reject" in ans:
+        raise InfraError(f"c15_symext_decide rejects a generated call: {ans}")
+    if list(ans["dims"]) != [dA, dB]:
+        raise InfraError(f"the model decodes dim form {form!r} as {ans['dims']}, generated on {[dA, dB]}")
+    res.count(f"symext-model/{ans['branch']}/{ans['verdict']}")
+    near = False
+    if ans["branch"] == "analytic-2qubit":
+        near = abs(q["purB"] - q["purRho"] + 4 * np.sqrt(max(q["detRho"], 0.0)) + tol) < 1e-9
+    res.case({"fn": "has_symmetric_extension/model", "level": level, "dim_form": form, "ppt": ppt, "dA": dA, "dB": dB, "rho": digest(inst["rho"])}, not near,
+             f"symext-model/{ans['branch']}")
+    if ans["branch"] == branch and (ans["verdict"] == out or near):
+        return
+    if ans["branch"] == branch == "sdp":
+        res.count("symext-model/sdp-value-not-1")   # the solver returned a value below 1 - tol: not a statement about the decision logic
+        return
+    res.violation(f"has_symmetric_extension(level={level}, dim={form}, ppt={ppt}) returned {out} at statement {branch}; the Lean model of its decision logic returns "
+                  f"{ans['verdict']} at {ans['branch']} on {dA}x{dB}",
+                  {"function": "has_symmetric_extension", "check": "decision-model", "args": {"dA": dA, "dB": dB, "level": level, "dim_form": form, "ppt": ppt, "family": inst["family"],
+                                                                                               "k": inst.get("k"), "rho": inst["rho"], "pres": inst.get("pres")},
+                   "impl": [out, branch], "model": [ans["verdict"], ans["branch"]], "quantities": q, "exception": exc, "branch": branch, "dA": dA, "dB": dB,
+                   "separable_by_construction": bool(inst.get("sep")), "theorem": "hasSymExtModel (symext_shortcuts_accept_separable, symext_analytic_arithmetic, symext_sdp_branch_constant)"})
+
+
 def work_symext(task, res: Result):
     warnings.filterwarnings("ignore")
     inst = task["inst"]
@@ -1088,6 +1504,7 @@ def work_symext(task, res: Result):
         out, branch, exc = observed_call("has_symmetric_extension", arr, level, dim, ppt)
         _purity(res, "has_symmetric_extension", guard, arr, {"dA": dA, "dB": dB, "level": level, "dim_form": form, "ppt": ppt, "rho": rho, "pres": task.get("pres")})
         res.count(f"symext-branch/{branch}/{out}")
+        check_symext_model(res, drv, arr, inst, level, form, ppt, out, branch, exc)
         oracle = bool(inst.get("sep")) or (npt and ppt)
         res.case({"fn": "has_symmetric_extension", "level": level, "dim_form": form, "ppt": ppt, "dA": dA, "dB": dB, "family": inst["family"], "rho": digest(rho)}, oracle,
                  f"symext/{inst['family']}/{dA}x{dB}/level{level}")
@@ -1095,13 +1512,59 @@ def work_symext(task, res: Result):
                 "presentation": describe(arr), "impl": out, "branch": branch, "exception": exc, "separable_by_construction": bool(inst.get("sep")), "dA": dA, "dB": dB}
         if inst.get("sep") and out is not True:
             res.violation(f"has_symmetric_extension(level={level}, dim={form}, ppt={ppt}) = {out} on a mixture of product states on {dA}x{dB} (branch {branch}; {exc})",
-                          {**info, "model": True, "theorem": "sepMix_separable (a separable state has symmetric extensions of every order)"})
+                          {**info, "model": True, "theorem": "sepMix_separable + separable_has_symmetric_extensions (a separable state has symmetric PPT extensions of every order)"})
         elif npt and ppt and out is not False:
             res.violation(f"has_symmetric_extension(level={level}, ppt=True) = {out} on a certified NPT state", {**info, "model": False, "certified_hi": float(cert["hi"]), "theorem": "negative_rayleigh_not_separable"})
 
 
+def work_symext_witness(task, res: Result):
+    """separable_has_symmetric_extensions in toqito's conventions: the explicit extension sum_i w_i/|b_i|^(2(level-1)) (a_i a_i^H) (x) (b_i b_i^H)^(x)level of an exact
+    mixture of product states satisfies every constraint that symmetric_extension_hierarchy writes for its extension variable - evaluated with the same toqito
+    functions and the same arguments (partial_trace(X, sys_list, dim_list) = rho, X >> 0, (1 (x) P_sym) X (1 (x) P_sym) = X, partial transposes of party 0 and of the
+    copies sys + 2) - and additionally is PPT with respect to every other copy."""
+    from toqito.channels import partial_trace, partial_transpose
+    from toqito.perms import symmetric_projection
+    warnings.filterwarnings("ignore")
+    inst, level = task["inst"], task["level"]
+    dA, dB, rho, terms = inst["dA"], inst["dB"], np.asarray(inst["rho"], dtype=complex), inst["terms"]
+    check_sepmix_exact(_drv(task), inst, res)
+    dim_list = [dA] + [dB] * level
+    sigma = np.zeros((dA * dB ** level, dA * dB ** level), dtype=complex)
+    for w, a, b in terms:
+        nb = float(np.vdot(b, b).real)
+        Pb = np.outer(b, np.conj(b))
+        T = Pb
+        for _ in range(level - 1):
+            T = np.kron(T, Pb)
+        sigma += float(w) / nb ** (level - 1) * np.kron(np.outer(a, np.conj(a)), T)
+    sys_list = list(range(2, 2 + level - 1))
+    sym = symmetric_projection(dB, level)
+    sym = np.asarray(sym.todense() if hasattr(sym, "todense") else sym)
+    K = np.kron(np.identity(dA), sym)
+    scale = max(1.0, float(np.max(np.abs(rho))))
+    fails = []
+    red = np.asarray(partial_trace(sigma, sys_list, dim_list))
+    if red.shape != rho.shape or float(np.max(np.abs(red - rho))) > 1e-12 * scale:
+        fails.append("partial_trace(X, sys_list, dim_list) != rho")
+    if float(np.max(np.abs(K @ sigma @ K - sigma))) > 1e-12 * scale:
+        fails.append("(1 (x) P_sym) X (1 (x) P_sym) != X")
+    if float(np.linalg.eigvalsh(herm(sigma))[0]) < -1e-12 * scale:
+        fails.append("X is not PSD")
+    for sys_ in [0] + list(range(1, level + 1)):
+        Y = np.asarray(partial_transpose(sigma, [sys_], dim_list))
+        if float(np.linalg.eigvalsh(herm(Y))[0]) < -1e-12 * scale:
+            fails.append(f"partial_transpose(X, [{sys_}], dim_list) is not PSD")
+    res.case({"fn": "symext_witness", "level": level, "dA": dA, "dB": dB, "rho": digest(rho)}, inst.get("k", 1) >= 2, f"symext-witness/{dA}x{dB}/level{level}")
+    if fails:
+        res.violation(f"the explicit symmetric extension (level {level}) of a mixture of product states on {dA}x{dB} violates constraints of the symmetric-extension search as "
+                      f"toqito's functions evaluate them: {fails}",
+                      {"function": "symext_witness", "args": {"dA": dA, "dB": dB, "level": level, "k": inst.get("k"), "rho": inst["rho"],
+                                                               "terms": [[str(t[0]), [complex(x) for x in t[1]], [complex(x) for x in t[2]]] for t in terms]},
+                       "impl": fails, "model": "all constraints hold", "theorem": "separable_has_symmetric_extensions"})
+
+
 WORK = {"ppt": work_ppt, "pt_tie": work_pt_tie, "sep": work_sep, "ball": work_ball, "symext": work_symext, "criteria": work_criteria, "choi_tie": work_choi_tie,
-        "ha_probe": work_ha_probe}
+        "ha_probe": work_ha_probe, "symext_witness": work_symext_witness}
 
 
 def work(task, res: Result):
@@ -1227,6 +1690,10 @@ def run(ctx, model_ok=True):
     # pure product states (1-term mixtures) on dA*dB > 6: they sit exactly on the boundary of the realignment and Zhang criteria
     for (dA, dB) in [(3, 3), (2, 4), (4, 2), (3, 4), (4, 4)] * (2 if quick else 12):
         sep_insts.append(gen_sepmix(rng, dA, dB, 1, bool(rng.integers(2))))
+    # the later 2xn statements (homothetic image, Lemma 1) with either party the qubit, and the statements only PPT entangled states reach
+    for i in range(12 if quick else 120):
+        sep_insts.append(gen_2xn_block(rng, 4, i % 2 == 0, ["lemma1", "homothetic", "homothetic-tight"][(i // 2) % 3], eps=[Fraction(1, 16), Fraction(1, 64)][(i // 6) % 2]))
+    sep_insts += corpus_thresholds() + corpus_cascade()
     for j, inst in enumerate(sep_insts):
         dA, dB = inst["dA"], inst["dB"]
         forms = ["list"]
@@ -1236,7 +1703,9 @@ def run(ctx, model_ok=True):
             forms.append("none")
         kw = {}
         heavy = (dA, dB) in ((3, 3), (4, 4))
-        if (j % 2 == 0 and not heavy) or (heavy and j % (6 if quick else 3) == 0) or inst["family"] == "bound-entangled":
+        if inst["family"] == "cascade-corpus":
+            pass   # decision logic only: the images under local unitaries leave the early statements and reach the SDP stage
+        elif (j % 2 == 0 and not heavy) or (heavy and j % (6 if quick else 3) == 0) or inst["family"] == "bound-entangled":
             cplx = bool(inst.get("cplx"))
             U = qgen.cayley_unitary(rng, dA, cplx)
             V = qgen.cayley_unitary(rng, dB, cplx)
@@ -1301,6 +1770,11 @@ def run(ctx, model_ok=True):
     for k in (2, 2, 3, 3) if quick else (2, 3) * 20:
         T("symext", inst=gen_sepmix(rng, 2, 2, k, bool(rng.integers(2))), calls=[(2, ["list", "none", "int"][int(rng.integers(3))], False)])
 
+    # explicit symmetric extensions of exact product mixtures against the constraint expressions of the hierarchy (levels 2 and 3)
+    for i, ((dA, dB), level) in enumerate([((2, 2), 2), ((2, 3), 2), ((3, 2), 2), ((3, 3), 2), ((2, 2), 3), ((2, 3), 3), ((3, 2), 3), ((4, 2), 2), ((2, 4), 2), ((3, 3), 2)]
+                                          * (1 if quick else 6)):
+        T("symext_witness", inst=gen_sepmix(rng, dA, dB, 1 + i % 5, bool(i % 2)), level=level)
+
     # ---- (v) necessary criteria of the cascade: ties of realignment / partial_trace / partial_channel to the exact model, and the criteria quantities on
     #          separable-by-construction inputs (drawn after all other streams)
     crit_insts = [inst for j, inst in enumerate(sep_insts) if inst.get("sep") or j % 3 == 0]
@@ -1342,6 +1816,14 @@ def run(ctx, model_ok=True):
     ctx.extra["has_symmetric_extension_deciding_statements"] = {k: v for k, v in ctx.hist.items() if k.startswith("symext-branch/")}
     ctx.extra["margins"] = {"lambda_min_vs_tol": MARGIN, "is_separable_npt": 1e-6, "ball_relative": MARGIN, "criteria_slack": CRIT_SLACK}
     ctx.extra["necessary_criterion_branch_theorems"] = dict(NECESSARY_THEOREMS, **{"rank4-3x3": "cited (Chen-Djokovic)", "symext-final-false": "known finding c15-is-separable-late-stage"})
+    ctx.extra["cascade_model_statements"] = {k: v for k, v in ctx.hist.items() if k.startswith(("cascade-model/", "symext-model/"))}
+    modelled = ["ppt-reject", "ppt-sufficient", "realignment", "zhang", "2xn-spectrum", "2xn-hankel", "2xn-homothetic", "2xn-lemma1", "rank4-3x3", "ball", "rank1-perturbation",
+                "op-schmidt-rank", "ha-maps-3x3"]
+    want = [(b, v) for b in modelled for v in ((False,) if b in ("ppt-reject", "realignment", "zhang", "ha-maps-3x3") else (True, False) if b == "rank4-3x3" else (True,))]
+    missing = [f"{b}/{v}" for b, v in want if not ctx.hist.get(f"is_separable-branch/{b}/{v}")]
+    ctx.extra["cascade_statements_not_reached"] = missing
+    if missing:
+        ctx.note("statements of the modelled cascade that decided no call in this run: " + ", ".join(missing))
     reachable = sorted({k.split("/")[1] for k in br})
     ctx.note("is_separable statements that decided at least one call: " + ", ".join(reachable))
 
@@ -1391,6 +1873,11 @@ def replay(ctx, rec):
         work_criteria({"inst": inst, "ha_idx": a.get("ha_idx", 0), "model_ok": True, "pres": a.get("pres")}, res)
     elif fn == "partial_channel":
         work_choi_tie({"dA": a["dA"], "dB": a["dB"], "dO": a["dO"], "sys": a["sys"], "X": _arr(a["X"]), "J": _arr(a["J"]), "model_ok": True, "pres": a.get("pres")}, res)
+    elif fn == "symext_witness":
+        cx = lambda e: complex(e["re"], e["im"]) if isinstance(e, dict) else complex(e)
+        terms = [(Fraction(t[0]), np.array([cx(x) for x in t[1]]), np.array([cx(x) for x in t[2]])) for t in a["terms"]]
+        inst = {"family": "sepmix", "dA": a["dA"], "dB": a["dB"], "rho": _arr(a["rho"]), "sep": True, "terms": terms, "k": a.get("k"), "cplx": True, "scale": 1.0}
+        work_symext_witness({"inst": inst, "level": a["level"], "model_ok": True}, res)
     elif fn == "ha_probe":
         work_ha_probe({"vecs": [np.asarray(_arr([v]))[0] for v in a["vecs"]], "model_ok": True}, res)
     else:
